@@ -98,6 +98,9 @@ def _num(x):
         nice = fr.limit_denominator(10 ** 6)
         if fr == nice or abs(float(nice) - float(x)) <= 4e-16 * abs(float(x)):
             fr = nice
+        else:
+            # otherwise the shortest decimal that round-trips (what the programmer wrote: 5.792105e-2, not its binary expansion)
+            fr = fractions.Fraction(repr(float(x)))
         return z3.RealVal(str(fr)), "real"
     if isinstance(x, SBV):
         return x.as_int().z, "int"
